@@ -1,7 +1,7 @@
 """Contracts for file_builder/file_builder.py (class FileBuilder)."""
 import z3
 from pyvc.engine import Contract, ExcSpec, LoopSpec
-from pyvc.sorts import (is_alloc, STR, BOOL, INT, PYV, OBJ, SET, MAP, LIST, OPT, StrS, ObjS, PyV, PyVs, KVs,
+from pyvc.sorts import (str_lit, is_alloc, STR, BOOL, INT, PYV, OBJ, SET, MAP, LIST, OPT, StrS, ObjS, PyV, PyVs, KVs,
                         cls_isinstance, cls_of, CLS, abspath, dirname, K_FILE, K_DIR, K_ABSENT, EXC,
                         exc_issub)
 from pyvc.values import CallbackV, Sym
@@ -107,7 +107,7 @@ def fence(name, params, vararg=None, kwarg=None):
     ps = {'self': FB}
     ps.update(params)
     con = Contract(M + name, props=['C17'], params=ps, variant='finished',
-                   requires=lambda c: wf_builder(c) + [('finished', finished(c))] + [
+                   requires=lambda c: wf_builder(c) + build_state_wf(c) + [('finished', finished(c))] + [
                        ('wf-' + k, J.wf(c.a(k))) for k, t in params.items()
                        if t is PYV or (isinstance(t, Sym) and t.ty.kind == 'pyv')],
                    may_return=False, raises=FENCE_EXC, modifies=NOTHING)
@@ -248,7 +248,9 @@ BUILD_WEAK = Contract(
     returns=PYV,
     ensures=lambda c: eff_grows(c) + [('finished', c.new('FileBuilder._is_finished_build', c.self))],
     raises=[ExcSpec('Exception', ensures=lambda c: eff_grows(c) + [
-        ('finished', c.new('FileBuilder._is_finished_build', c.self))])],
+        ('finished', c.new('FileBuilder._is_finished_build', c.self))]),
+        # KeyboardInterrupt & co. pass through `except Exception`: no roll-back, flag not set
+        ExcSpec('KeyboardInterrupt', ensures=eff_grows)],
     modifies=lambda c: BUILD_MODS + BUILD_GHOSTS,
 )
 CONTRACTS.append(BUILD_WEAK)
@@ -288,6 +290,27 @@ def first_effect_is_mkdtemp(c):
               And(z3.PrefixOf(e0, e1), z3.Length(e1) > n, Effect.is_Mkdtemp(e1[n])))
 
 
+def bv_exit(eng, st, ctrl):
+    """C17.Z2: the root builder created by this call is finished on every exit (also when the
+    build function raised something that is not an Exception)"""
+    b = st.env.get('builder')
+    if b is None:
+        return []
+    return [('root-builder-closed-on-every-exit',
+             eng.hread(st, 'FileBuilder._is_finished_build', b.t), ['C17'])]
+
+
+def root_builders_closed(c):
+    """C17.Z2: the root builder created by this call is finished on every exit (also when the
+    build function raised something that is not an Exception)"""
+    a0, a1 = c.gold('alloc'), c.gnew('alloc')
+    from pyvc.sorts import birth
+    return [('root-builder-closed-on-every-exit', ForAll([qo_], Implies(
+        And(birth(qo_) >= a0, birth(qo_) < a1, cls_of(qo_) == CLS['FileBuilder'],
+            Not(OPT_OP.is_some(c.new('FileBuilder._operation', qo_)))),
+        c.new('FileBuilder._is_finished_build', qo_))), ['C17'])]
+
+
 CONTRACTS.append(guard_set(Contract(
     M + 'build_versioned', props=['C15', 'C17'],
     params={'cache_filename': PYV, 'build_name': PYV, 'versions': PYV, 'func': callback(),
@@ -296,11 +319,12 @@ CONTRACTS.append(guard_set(Contract(
     requires=lambda c: [('wf1', J.wf(c.cache_filename)), ('wf2', J.wf(c.build_name)),
                         ('wf3', J.wf(c.versions))],
     ensures=lambda c: [('first-effect-is-the-backup-directory', first_effect_is_mkdtemp(c))],
-    raises=[ExcSpec('Exception', ensures=lambda c: [
+    raises=[ExcSpec('BaseException', ensures=lambda c: [
         ('refused-or-first-effect-is-the-backup-directory', first_effect_is_mkdtemp(c))])],
     modifies=lambda c: list(SH.keys()) + ['g:eff', 'g:fs_kind', 'g:fs_epoch', 'g:ncalls'],
     lemmas=['lookup_sanitized', 'sanitized_eqdom', 'rt_sanitized'],
 ), mkdtemp=bv_mkdtemp_guard))
+CONTRACTS[-1].exit_obligations = bv_exit
 
 
 def builder_mods(c):
@@ -311,6 +335,7 @@ def builder_mods(c):
 # C11: values cross the API by value.  Region obligations: `ret_fresh` on every value-returning API
 # edge; arguments handed to user callbacks must be fresh (checked at the callback call site).
 EXEC = 'file_builder.simple_operation_executor.SimpleOperationExecutor.'
+OPS = ['exists', 'get_size', 'is_dir', 'is_file', 'list_dir', 'read', 'walk']
 EXEC_MODS = ['BuildDirs._removed_dirs', 'BuildDirs._exists_dirs', 'BuildDirs._maybe_removed_dirs',
              'BuildDirs._removed_files', 'SimpleOperationExecutor._hash_cache']
 
@@ -321,8 +346,11 @@ CONTRACTS.append(Contract(
     params={'self': OBJ('SimpleOperationExecutor'), 'name': STR, 'args': PYV,
             'created_files': OPT(OBJ('CreatedFiles'))},
     returns=PYV,
-    ensures=lambda c: no_effect(c) + [('result-is-json-like', J.wf(c.res))],
-    raises=[ExcSpec('OSError', ensures=no_effect), ExcSpec('ValueError', ensures=no_effect)],
+    ensures=lambda c: no_effect(c) + [('result-is-json-like', J.wf(c.res)),
+                                      ('result-comparable', J.eqdom(c.res))],
+    raises=[ExcSpec('OSError', ensures=no_effect),
+            ExcSpec('ValueError', when=lambda c: Not(Or([c.name == str_lit(n) for n in OPS])),
+                    ensures=no_effect)],
     modifies=lambda c: EXEC_MODS,
     notes='dispatch by name to the executor methods; queries never change the file system'))
 
@@ -351,8 +379,9 @@ CONTRACTS[-1].fresh_props = ['C11']
 BUILD_FILE_WEAK = Contract(
     M + '_build_file', props=['C10'], trusted=True,
     params={'self': FB, 'func': callback()}, returns=PYV,
+    requires=lambda c: build_state_wf(c),
     ensures=lambda c: append_only(c, True),
-    raises=[ExcSpec('Exception', ensures=lambda c: append_only(c, True))],
+    raises=[ExcSpec('BaseException', ensures=lambda c: append_only(c, True))],
     modifies=builder_mods)
 CONTRACTS.append(BUILD_FILE_WEAK)
 
@@ -433,10 +462,11 @@ SUBBUILD_INNER = Contract(
         ('args-sanitized', J.sanitized(c.old('Operation.args', OPT_OP.val(op_of(c))))),
         ('kwargs-sanitized', J.sanitized(c.old('ComplexOperation.kwargs', OPT_OP.val(op_of(c))))),
         ('func-callable', c.args['func'].is_callable),
-        ('record-is-new', z3.Length(c.old(SUBOPS, OPT_OP.val(op_of(c)))) == 0)],
+        ('record-is-new', z3.Length(c.old(SUBOPS, OPT_OP.val(op_of(c)))) == 0)]
+    + build_state_wf(c),
     ensures=lambda c: [('closed', c.new('Operation.is_finished', OPT_OP.val(op_of(c))))]
     + append_only(c, True),
-    raises=[ExcSpec('Exception', ensures=lambda c: append_only(c, True))],
+    raises=[ExcSpec('BaseException', ensures=lambda c: append_only(c, True))],
     modifies=builder_mods,
 )
 SUBBUILD_INNER.callback_havoc = cb_havoc_builder
@@ -466,15 +496,7 @@ def cur_op(c):
     return OPT_OP.val(op_of(c))
 
 
-SUBLOOKUP = Contract(
-    M + '_subbuild_cache_lookup', props=['C01', 'C06', 'C05'], trusted=True,
-    params={'self': FB, 'subbuild_key': PYV}, returns=OPT_SUB,
-    ensures=lambda c: no_effect(c) + [
-        ('hit-is-the-old-record', Implies(OPT_SUB.sort().is_some(c.res), And(
-            Not(c.old('ComplexOperation.raised', OPT_SUB.sort().val(c.res))),
-            c.old('Operation.is_finished', OPT_SUB.sort().val(c.res)))))],
-    modifies=lambda c: LOOKUP_MODS)
-CONTRACTS.append(SUBLOOKUP)
+# (the two top-level lookups are defined with the replay functions below)
 
 APPLY = Contract(
     M + '_apply_cached_suboperations', props=['C01', 'C14'], trusted=True,
@@ -521,7 +543,7 @@ def recorded_on_parent(c):
             c.new('Operation.is_finished', last_subop(c)))), ['C17', 'C08'])]
 
 
-PUBLIC_RUN_REQ = lambda c: wf_builder(c) + [('wf-args', J.wf(c.args['args'].t)),
+PUBLIC_RUN_REQ = lambda c: wf_builder(c) + build_state_wf(c) + [('wf-args', J.wf(c.args['args'].t)),
                                             ('wf-kwargs', J.wf(c.args['kwargs'].t)),
                                             ('kwargs-keys-are-str', J.is_dict(c.args['kwargs'].t))]
 
@@ -533,7 +555,7 @@ SUBBUILD_PUB = Contract(
     ensures=lambda c: recorded_on_parent(c) + append_only(c),
     raises=[ExcSpec('RuntimeError', when=lambda c: finished(c), ensures=no_effect,
                     modifies=NOTHING, props=['C17'], guarded=True, forces=True),
-            ExcSpec('Exception', when=lambda c: Not(finished(c)), guarded=True,
+            ExcSpec('BaseException', when=lambda c: Not(finished(c)), guarded=True,
                     ensures=lambda c: append_only(c))],
     modifies=builder_mods,
     lemmas=['rt_sanitized'],
@@ -551,7 +573,7 @@ BFWC = Contract(
     ensures=lambda c: recorded_on_parent(c) + append_only(c),
     raises=[ExcSpec('RuntimeError', when=lambda c: finished(c), ensures=no_effect,
                     modifies=NOTHING, props=['C17'], guarded=True, forces=True),
-            ExcSpec('Exception', when=lambda c: Not(finished(c)), guarded=True,
+            ExcSpec('BaseException', when=lambda c: Not(finished(c)), guarded=True,
                     ensures=lambda c: append_only(c))],
     modifies=builder_mods,
     lemmas=['rt_sanitized'],
@@ -604,7 +626,8 @@ REBUILD = Contract(
     raises=[ExcSpec('Exception', ensures=lambda c: [
         ('closed', c.new('Operation.is_finished', cur_op(c)), ['C17', 'C10']),
         ('marked-raised', c.new('ComplexOperation.raised', cur_op(c)), ['C10']),
-    ] + append_only(c, True))],
+    ] + append_only(c, True)),
+        ExcSpec('KeyboardInterrupt', ensures=lambda c: append_only(c, True))],
     modifies=builder_mods,
 )
 REBUILD.callback_havoc = cb_havoc_builder
@@ -626,3 +649,295 @@ CMP_RESULT = Contract(
             ExcSpec('OSError', ensures=no_effect), ExcSpec('ValueError', ensures=no_effect)],
     modifies=lambda c: ['SimpleOperationExecutor._hash_cache'])
 CONTRACTS.insert(0, CMP_RESULT)
+
+
+# ===================================================================================================
+# Cache lookups and replay (C06 versions, C01.L1-L3, C05, C08.D4)
+from contracts import created_files as CF      # noqa: E402
+from pyvc.fuel import rec as frec, define as fdefine      # noqa: E402
+
+CFO = OBJ('CreatedFiles')
+OPREC = OBJ('ComplexOperation')
+FN, ARGS, KWARGS_F = 'ComplexOperation.func_name', 'Operation.args', 'ComplexOperation.kwargs'
+SETUPF, RAISED = 'ComplexOperation.setup_failed', 'ComplexOperation.raised'
+
+# VOK(o): the function version of record o and of every complex record below it equals the version
+# given for this build (C06).  Least fixpoint over the (finite, acyclic) record tree; used through
+# its two unfolding directions, stated per call site from the entry-state heap.
+VOK = z3.Function('versions_ok', ObjS, z3.BoolSort())
+qi_ = z3.Const('fb!i', z3.IntSort())
+
+
+def is_complex(o):
+    return Or(cls_of(o) == CLS['BuildFileOperation'], cls_of(o) == CLS['SubbuildOperation'])
+
+
+def vok_children(c, op, st='old'):
+    s = getattr(c, st)(SUBOPS, op)
+    return ForAll([qi_], Implies(And(0 <= qi_, qi_ < z3.Length(s), is_complex(s[qi_])),
+                                 VOK(s[qi_])))
+
+
+def vok_def(c, op):
+    """definition of VOK at `op` (instance of the fixpoint equation)"""
+    return VOK(op) == And(versions_equal(c, c.old(FN, op)), vok_children(c, op))
+
+
+RWF = z3.Function('record_wf', ObjS, z3.BoolSort())
+qr_ = z3.Const('fb!r', ObjS)
+
+
+def record_axioms(c):
+    """ghost predicates over the record forest of the old cache: VOK is defined by its fixpoint
+    equation; RWF is the type invariant of records read from a cache file (assumed of the input):
+    JSON arguments and results, known comparison names, children well-formed"""
+    rd = c.old
+    s = rd(SUBOPS, qr_)
+    local = And(
+        is_alloc(c.gold('alloc'), qr_),
+        Implies(is_complex(qr_), And(J.sanitized(rd(ARGS, qr_)), J.sanitized(rd(KWARGS_F, qr_)),
+                                     rd('Operation.is_finished', qr_))),
+        Implies(cls_of(qr_) == CLS['BuildFileOperation'], And(
+            J.eqdom(rd('BuildFileOperation.file_comparison_result', qr_)),
+            Or(rd(SETUPF, qr_), dirname(rd('BuildFileOperation.filename', qr_))
+               != rd('BuildFileOperation.filename', qr_)))),
+        Implies(cls_of(qr_) == CLS['SimpleOperation'], J.eqdom(rd('Operation.return_value', qr_))),
+        Or(is_complex(qr_), cls_of(qr_) == CLS['SimpleOperation']))
+    kids = ForAll([qi_], Implies(And(0 <= qi_, qi_ < z3.Length(s)), RWF(s[qi_])))
+    return [('def-versions-ok', ForAll([qr_], Implies(RWF(qr_), VOK(qr_) == And(
+                versions_equal(c, rd(FN, qr_)),
+                ForAll([qi_], Implies(And(0 <= qi_, qi_ < z3.Length(s), is_complex(s[qi_])),
+                                      VOK(s[qi_]))))))),
+            ('def-record-type-invariant', ForAll([qr_], Implies(RWF(qr_), And(
+                local, Implies(is_complex(qr_), kids)))))]
+
+
+def cf_inv(c, st, cf):
+    rd = getattr(c, st)
+    return CF.inv(lambda f: rd(f, cf))
+
+
+def cf_counts_grow(c, cf):
+    d = CF.d
+    return ForAll([d], CF.cnt(c.new(CF.N_, cf), d) >= CF.cnt(c.old(CF.N_, cf), d))
+
+
+def replay_frame(c):
+    return no_effect(c)
+
+
+REPLAY_MODS = lambda c: EXEC_MODS + [(f, c.created_files) for f in (CF.F_, CF.D_, CF.S_, CF.N_)]
+
+
+def replay_common_req(c):
+    return wf_builder(c) + record_axioms(c) + versions_wf(c)
+
+
+def versions_wf(c):
+    return [('versions-are-dicts', And(
+        J.is_dict(c.old('Cache._func_versions', c.old('FileBuilder._old_cache', c.self))),
+        J.is_dict(c.old('Cache._func_versions', c.old('FileBuilder._new_cache', c.self))),
+        J.sanitized(c.old('Cache._func_versions', c.old('FileBuilder._old_cache', c.self))),
+        J.sanitized(c.old('Cache._func_versions', c.old('FileBuilder._new_cache', c.self))))),
+        ('op-versions-are-dicts', And(
+            J.is_dict(c.old('Cache._operation_versions', c.old('FileBuilder._old_cache', c.self))),
+            J.is_dict(c.old('Cache._operation_versions', c.old('FileBuilder._new_cache', c.self))),
+            J.sanitized(c.old('Cache._operation_versions',
+                              c.old('FileBuilder._old_cache', c.self))),
+            J.sanitized(c.old('Cache._operation_versions',
+                              c.old('FileBuilder._new_cache', c.self)))))]
+
+
+ARE_SUBOPS = Contract(
+    M + '_are_suboperations_cached', props=['C06', 'C01', 'C05'],
+    params={'self': FB, 'operation': OPREC, 'created_files': CFO}, returns=BOOL,
+    requires=lambda c: replay_common_req(c) + cf_inv(c, 'old', c.created_files) + [
+        ('record-wf', RWF(c.operation)), ('is-complex', is_complex(c.operation))],
+    ensures=lambda c: replay_frame(c) + cf_inv(c, 'new', c.created_files) + [
+        ('overlay-counts-never-drop', cf_counts_grow(c, c.created_files)),
+        ('true-only-if-versions-unchanged-below', Implies(c.res, vok_children(c, c.operation)),
+         ['C06']),
+    ],
+    raises=[ExcSpec('RuntimeError', ensures=replay_frame), ExcSpec('OSError', ensures=replay_frame),
+            ExcSpec('ValueError', ensures=replay_frame)],
+    modifies=REPLAY_MODS,
+    loops={0: LoopSpec(modifies=REPLAY_MODS,
+                       inv=lambda c: cf_inv(c, 'new', c.created_files) + no_effect_loop(c) + [
+        ('overlay-counts-never-drop', ForAll([CF.d], CF.cnt(c.new(CF.N_, c.created_files), CF.d)
+                                             >= CF.cnt(c.entry(CF.N_, c.created_files), CF.d))),
+        ('versions-ok-so-far', ForAll([qi_], Implies(
+            And(0 <= qi_, qi_ < c.loop['i'], is_complex(c.loop['seq'][qi_])),
+            VOK(c.loop['seq'][qi_])))),
+    ])},
+    lemmas=['PATHS', 'ANC'],
+)
+
+
+def no_effect_loop(c):
+    return [('no-fs-effect', c.gnew('eff') == c.gentry('eff')),
+            ('no-callback', c.gnew('ncalls') == c.gentry('ncalls')),
+            ('fs-unchanged', c.gnew('fs_kind') == c.gentry('fs_kind'))]
+
+
+CONTRACTS.append(ARE_SUBOPS)
+
+IS_BF_CACHED = Contract(
+    M + '_is_build_file_cached', props=['C13', 'C01', 'C05'],
+    params={'self': FB, 'operation': OBJ('BuildFileOperation')}, returns=BOOL,
+    requires=lambda c: [('recorded-result-is-json', J.eqdom(c.old(
+        'BuildFileOperation.file_comparison_result', c.operation)))],
+    ensures=lambda c: no_effect(c),
+    raises=[ExcSpec('OSError', ensures=no_effect), ExcSpec('ValueError', ensures=no_effect)],
+    modifies=lambda c: ['SimpleOperationExecutor._hash_cache'],
+    lemmas=['sanitized_eqdom'],
+)
+CONTRACTS.append(IS_BF_CACHED)
+
+DIRS_TO_MAKE = Contract(
+    M + '_dirs_to_make', props=['C10', 'C04'], trusted=True,
+    params={'self': FB, 'dir_': STR, 'created_files': OPT(CFO)}, returns=LIST(STR),
+    ensures=lambda c: no_effect(c),
+    raises=[ExcSpec('OSError', ensures=no_effect)],
+    modifies=lambda c: EXEC_MODS)
+CONTRACTS.append(DIRS_TO_MAKE)
+
+
+def record_wf(c, op):
+    """type invariant of a finished record read from the old cache"""
+    return [('record-args-json', And(J.sanitized(c.old(ARGS, op)), J.sanitized(c.old(KWARGS_F, op)))),
+            ('record-exists', is_alloc(c.gold('alloc'), op))]
+
+
+IS_BFOP = Contract(
+    M + '_is_build_file_operation_cached', props=['C06', 'C01', 'C05', 'C08'],
+    params={'self': FB, 'operation': OBJ('BuildFileOperation'), 'created_files': CFO}, returns=BOOL,
+    requires=lambda c: replay_common_req(c) + cf_inv(c, 'old', c.created_files)
+    + [('record-wf', RWF(c.operation))],
+    ensures=lambda c: replay_frame(c) + cf_inv(c, 'new', c.created_files) + [
+        ('overlay-counts-never-drop', cf_counts_grow(c, c.created_files)),
+        ('true-only-if-versions-unchanged', Implies(c.res, VOK(c.operation)), ['C06']),
+        ('true-only-if-not-setup-failed', Implies(c.res, Not(c.old(SETUPF, c.operation))),
+         ['C08', 'C01']),
+        ('true-only-if-path-unclaimed', Implies(c.res, Not(CA.OO.is_some(c.old(
+            NCF, c.old('FileBuilder._new_cache', c.self))[c.old(
+                'BuildFileOperation.filename', c.operation)]))), ['C08', 'C01']),
+    ],
+    raises=[ExcSpec('RuntimeError', ensures=replay_frame), ExcSpec('OSError', ensures=replay_frame),
+            ExcSpec('ValueError', ensures=replay_frame)],
+    modifies=REPLAY_MODS,
+    lemmas=['PATHS', 'ANC', 'lookup_sanitized', 'sanitized_eqdom'],
+)
+CONTRACTS.append(IS_BFOP)
+
+IS_SUBOP = Contract(
+    M + '_is_subbuild_operation_cached', props=['C06', 'C01', 'C05', 'C08'],
+    params={'self': FB, 'operation': OBJ('SubbuildOperation'), 'created_files': CFO}, returns=BOOL,
+    requires=lambda c: replay_common_req(c) + cf_inv(c, 'old', c.created_files)
+    + [('record-wf', RWF(c.operation))],
+    ensures=lambda c: replay_frame(c) + cf_inv(c, 'new', c.created_files) + [
+        ('overlay-counts-never-drop', cf_counts_grow(c, c.created_files)),
+        ('true-only-if-versions-unchanged', Implies(c.res, VOK(c.operation)), ['C06']),
+        ('true-only-if-not-setup-failed', Implies(c.res, Not(c.old(SETUPF, c.operation))),
+         ['C08', 'C01']),
+    ],
+    raises=[ExcSpec('RuntimeError', ensures=replay_frame), ExcSpec('OSError', ensures=replay_frame),
+            ExcSpec('ValueError', ensures=replay_frame)],
+    modifies=REPLAY_MODS,
+    lemmas=['PATHS', 'ANC', 'lookup_sanitized', 'sanitized_eqdom'],
+)
+CONTRACTS.append(IS_SUBOP)
+
+IS_SIMPLE = Contract(
+    M + '_is_simple_operation_cached', props=['C06', 'C01', 'C05'],
+    params={'self': FB, 'operation': OBJ('SimpleOperation'), 'created_files': CFO}, returns=BOOL,
+    requires=lambda c: replay_common_req(c) + [
+        ('record-wf', RWF(c.operation))],
+    ensures=lambda c: replay_frame(c),
+    modifies=lambda c: EXEC_MODS,
+    lemmas=['lookup_sanitized', 'sanitized_eqdom'],
+)
+CONTRACTS.append(IS_SIMPLE)
+
+
+# ---- the two top-level lookups ----------------------------------------------------------------------
+def old_cache_wf(c):
+    """type invariant of the old cache: every registered record satisfies RWF"""
+    oc = c.old('FileBuilder._old_cache', c.self)
+    x_ = z3.Const('fb!p', StrS)
+    k_ = z3.Const('fb!k', CA.HKeyS)
+    F = c.old('Cache._files', oc)
+    SBm = c.old('Cache._subbuilds', oc)
+    return [('old-cache-records-wf', And(
+        ForAll([x_], Implies(CA.entry_record(F[x_]), And(
+            RWF(CA.rec_of(F[x_])), cls_of(CA.rec_of(F[x_])) == CLS['BuildFileOperation']))),
+        ForAll([k_], Implies(And(CA.OSB.is_some(SBm[k_]), CA.OSI.is_some(CA.OSB.val(SBm[k_]))),
+                             And(RWF(CA.OSI.val(CA.OSB.val(SBm[k_]))),
+                                 cls_of(CA.OSI.val(CA.OSB.val(SBm[k_])))
+                                 == CLS['SubbuildOperation'])))))]
+
+
+def own_args_json(c):
+    return [('own-args-json', And(J.sanitized(c.old(ARGS, cur_op(c))),
+                                  J.sanitized(c.old(KWARGS_F, cur_op(c)))))]
+
+
+SUBLOOKUP = Contract(
+    M + '_subbuild_cache_lookup', props=['C01', 'C06', 'C05', 'C08'],
+    params={'self': FB, 'subbuild_key': PYV}, returns=OPT_SUB,
+    requires=lambda c: replay_common_req(c) + old_cache_wf(c) + [
+        ('is-subbuild', And(OPT_OP.is_some(op_of(c)),
+                            cls_of(cur_op(c)) == CLS['SubbuildOperation']))],
+    ensures=lambda c: no_effect(c) + [
+        ('hit-is-the-old-record', Implies(OPT_SUB.sort().is_some(c.res), And(
+            CA.OSB.is_some(c.old('Cache._subbuilds', c.old('FileBuilder._old_cache', c.self))[
+                CA.hkey(c.subbuild_key)]),
+            CA.OSB.val(c.old('Cache._subbuilds', c.old('FileBuilder._old_cache', c.self))[
+                CA.hkey(c.subbuild_key)]) == c.res,
+            Not(c.old(RAISED, OPT_SUB.sort().val(c.res))),
+            c.old('Operation.is_finished', OPT_SUB.sort().val(c.res)))), ['C01', 'C07']),
+        ('hit-only-if-version-unchanged', Implies(
+            OPT_SUB.sort().is_some(c.res),
+            And(versions_equal(c, c.old(FN, cur_op(c))),
+                vok_children(c, OPT_SUB.sort().val(c.res)))), ['C06']),
+    ],
+    raises=[ExcSpec('RuntimeError', ensures=no_effect), ExcSpec('OSError', ensures=no_effect),
+            ExcSpec('ValueError', ensures=no_effect)],
+    modifies=lambda c: LOOKUP_MODS,
+    lemmas=['PATHS', 'ANC', 'lookup_sanitized', 'sanitized_eqdom'],
+)
+CONTRACTS.append(SUBLOOKUP)
+
+BFLOOKUP = Contract(
+    M + '_build_file_cache_lookup', props=['C01', 'C06', 'C05', 'C07', 'C13'],
+    params={'self': FB}, returns=OPT_BF,
+    requires=lambda c: replay_common_req(c) + old_cache_wf(c) + own_args_json(c) + [
+        ('is-build-file', And(OPT_OP.is_some(op_of(c)),
+                              cls_of(cur_op(c)) == CLS['BuildFileOperation']))],
+    ensures=lambda c: no_effect(c) + [
+        ('hit-is-the-old-record-of-this-path', Implies(OPT_BF.sort().is_some(c.res), And(
+            c.old('Cache._files', c.old('FileBuilder._old_cache', c.self))[
+                c.old('BuildFileOperation.filename', cur_op(c))] == CA.OO.some(c.res),
+            Not(c.old(RAISED, OPT_BF.sort().val(c.res))))), ['C01', 'C07']),
+        ('hit-only-if-same-name-and-json-equal-arguments', Implies(
+            OPT_BF.sort().is_some(c.res), And(
+                c.old(FN, OPT_BF.sort().val(c.res)) == c.old(FN, cur_op(c)),
+                J.jeq(c.old(ARGS, OPT_BF.sort().val(c.res)), c.old(ARGS, cur_op(c))),
+                J.jeq(c.old(KWARGS_F, OPT_BF.sort().val(c.res)), c.old(KWARGS_F, cur_op(c))))),
+         ['C07', 'C01']),
+        ('hit-only-if-version-unchanged', Implies(
+            OPT_BF.sort().is_some(c.res),
+            And(versions_equal(c, c.old(FN, cur_op(c))),
+                vok_children(c, OPT_BF.sort().val(c.res)))), ['C06']),
+    ],
+    raises=[ExcSpec('RuntimeError', ensures=no_effect), ExcSpec('OSError', ensures=no_effect),
+            ExcSpec('ValueError', ensures=no_effect)],
+    modifies=lambda c: LOOKUP_MODS,
+    lemmas=['PATHS', 'ANC', 'lookup_sanitized', 'sanitized_eqdom'],
+)
+CONTRACTS.append(BFLOOKUP)
+
+
+def build_state_wf(c):
+    """type invariant of the state shared by the builders of one build (established by
+    build_versioned; assumed at the public entry points)"""
+    return record_axioms(c) + versions_wf(c) + old_cache_wf(c)
